@@ -193,6 +193,7 @@ func (m *meta) write(dir string) {
 	sort.Strings(keys)
 	b, err := json.MarshalIndent(m, "", " ")
 	must(err)
+	must(os.MkdirAll(dir, 0o755))
 	must(os.WriteFile(filepath.Join(dir, m.Stream+".meta.json"), b, 0o644))
 }
 
